@@ -2,6 +2,7 @@
 import random
 from ..comp import storage as ST
 from ..comp import storageread as SR
+from ..comp import storeseq as SQ
 
 ID = 'C05'
 P = 'EAO.Properties.C05'
@@ -20,12 +21,21 @@ THEOREMS = [
 ]
 THEOREMS = THEOREMS + SR.THEOREMS_C05_READOUT
 PARTIAL = ['level theorems assume 0 <= end_level <= size, which the constructor does not check (end_level > size is accepted by the code and feasible with the last level above size)']
-COMPONENTS = ['storage builder vs Storage.setup_optim_problem (cost, bounds, rows in order, mapping)', 'storage read-out (fill level, charge, discharge) vs Storage.fill_level / io.extract_output', 'block start positions for tick block sizes vs pandas']
+COMPONENTS = ['storage object re-used over several horizons / split intervals (oracle only)', 'storage builder vs Storage.setup_optim_problem (cost, bounds, rows in order, mapping)', 'storage read-out (fill level, charge, discharge) vs Storage.fill_level / io.extract_output', 'block start positions for tick block sizes vs pandas']
 RULE = ('storages over (size, rates, efficiency, start/end level, inflow, three costs, price, 1|2 nodes, windows, blocks, both MIP options, grids with unequal steps (DST), several units; number FORMS: every numeric parameter whose value is whole is handed to the constructor as Python int / np.int64 / np.int32 / float / np.float64 and whole-valued price series as int64 / int32 / float64 arrays (market series also as lists of ints), drawn per parameter from the seed while model and oracle keep the exact values; focus stream with whole size / start level next to a fractional end level and vice versa, whole rates, costs, inflow, holding limit, mostly without inflow and blocks), each embedded in a small portfolio with a market per node and optimised; '
-        'non-trivial = solved with non-zero charge and discharge; distinct by case hash')
-ASSUMPTIONS = ['oracle tolerance 1e-6 scaled; MIP cases solved with HiGHS', 'number forms explored: Python int/float, np.int32/int64/float64 (no float32, no Decimal/Fraction); the price series of the storage itself always as numpy array (the code indexes it as one; lists only for the market contracts)']
+        'non-trivial = solved with non-zero charge and discharge; distinct by case hash; '
+        'stream sequence (comp/storeseq.py): ONE storage object inside ONE portfolio object set up and optimised in several stages - rolling horizons of equal or different length shifted by a few grid steps '
+        '(mostly not by whole blocks), the same horizon again, other uses of the objects in between (cost samples, asset-level set-up, set_timegrid), or the consecutive intervals of '
+        'Portfolio.setup_split_optim_problem with interval sizes that are no multiple of the block size - for storages whose calendar features do not sit on the horizon start: time blocks with a calendar anchor '
+        '(W, MS), blocks of plain durations anchored at the storage\'s own start, grids d / 12h / 6h / h with and without time zone and clock changes inside the horizons, own windows fixed in the calendar '
+        '(starting before / inside, ending inside / beyond the horizon), own coarser frequency whose first / last coarse step is covered by the horizon only in part (cuts also off the grid points), with '
+        'start level != end level, inflow, charging loss, costs, one or two nodes (no MIP options in this stream)')
+ASSUMPTIONS = ['oracle tolerance 1e-6 scaled; MIP cases solved with HiGHS',
+               'stream sequence: the active steps of a storage are those that carry its variables (a coarse storage drops the grid steps after its last coarse cut: finding F-19b of C13/C19); the reported fill level over the whole horizon of a SPLIT problem is compared only when start level = end level and no interval dropped such steps (every interval restarts at the start level: finding F-14b of C14) - the per-interval statements are checked in all cases', 'number forms explored: Python int/float, np.int32/int64/float64 (no float32, no Decimal/Fraction); the price series of the storage itself always as numpy array (the code indexes it as one; lists only for the market contracts)']
 MODELLED = ['block boundaries for calendar block sizes are an input of the model (computed with the same pandas expression as the code); tick block sizes are modelled and cross-checked']
-EXPLANATION = 'theorems about the model of the Storage builder and the reported series; correspondence; oracle recomputing the physical level from x and the PARAMETERS (their exact values, whatever number form - int, numpy integer, float - the constructor received)'
+EXPLANATION = ('theorems about the model of the Storage builder and the reported series; correspondence; oracle recomputing the physical level from x and the PARAMETERS (their exact values, whatever number form - int, numpy integer, float - the constructor received); '
+               'stream sequence: the same oracle (level within [0, size], end level at the last active step, at every block end and in every split interval, rates, window, reported level / charge / discharge / dispatch = physical) '
+               'after EVERY set-up of the same objects, with step lengths recomputed from the time points and block positions computed on grid objects the storage never saw')
 
 
 def scenarios(seed, tier):
@@ -69,6 +79,10 @@ def scenarios(seed, tier):
     rnd5 = random.Random(seed * 7919 + 5 + 300007)
     for i in range(n // 6):
         yield 'ro%d' % i, {'_stream': 'readout', 'case': SR.gen_case(random.Random(rnd5.getrandbits(48)))}
+    # ONE storage / portfolio object optimised on several horizons (rolling, split intervals); blocks, windows and coarse steps tied to the calendar (comp/storeseq.py)
+    rnd6 = random.Random(seed * 7919 + 5 + 600011)
+    for i in range(n // 4):
+        yield 'sq%d' % i, {'_stream': 'seq', 'case': SQ.gen_case(random.Random(rnd6.getrandbits(48)))}
 
 
 def run_pe(case):
@@ -178,6 +192,8 @@ def run_case(case, drv):
         return run_pe(case['case'])
     if case.get('_stream') == 'scaled':
         return run_scaled(case)
+    if case.get('_stream') == 'seq':
+        return SQ.run_case(case['case'], drv)
     if case.get('_stream') == 'readout':
         r = SR.run_case(case['case'], drv)
         r['nontrivial'] = bool(r.get('solved'))
